@@ -21,7 +21,7 @@ import (
 // copy, and the other way round.  A lazily cached encoding behind a shared pointer, a
 // finalizer tied to the constructor's object, break exactly that.
 func init() {
-	for _, id := range []string{"C02", "C03", "C18"} {
+	for _, id := range []string{"C02", "C03", "C14", "C18"} {
 		id := id
 		prev := registry[id].Run
 		registry[id].Run = func(r *mon.Run) {
@@ -36,11 +36,15 @@ func init() {
 func runValueCopies(r *mon.Run, id string) {
 	lc := "c" + id[1:]
 	r.Require(lc + ":value-copy")
-	r.Seq(lc+"/value-copies", r.N(200, 6000), func(w *mon.W, i int) {
+	n := r.N(200, 6000)
+	if id == "C14" {
+		n = r.N(40, 1000)
+	}
+	r.Seq(lc+"/value-copies", n, func(w *mon.W, i int) {
 		rng := w.Rng
 		w.Class(lc + ":value-copy")
 		w.Case(true, []byte("value-copy"), []byte{byte(i), byte(i >> 8)})
-		if id != "C03" {
+		if id != "C03" && id != "C14" {
 			// Scalar: decode, observe, copy by value, decode something else into the original
 			a, b := rng.Below(bigN), rng.Below(bigN)
 			orig, _ := secp256k1.NewScalarFromCanonicalBytes(arr32(a))
@@ -77,7 +81,7 @@ func runValueCopies(r *mon.Run, id string) {
 				return
 			}
 		}
-		if id != "C02" {
+		if id != "C02" && id != "C14" {
 			// Point: observe (encodings may be cached), copy by value, change one of the two in place
 			k := nonzero(rng.Below(bigN))
 			m := oracle.MulG(k)
@@ -123,7 +127,7 @@ func runValueCopies(r *mon.Run, id string) {
 				return
 			}
 		}
-		if id == "C18" && i%4 == 0 {
+		if (id == "C18" && i%4 == 0) || id == "C14" {
 			// keys: a value copy outlives the object the constructor returned (dropped, collected,
 			// finalizers run); the copy must still be the key
 			d, _ := keyValue(rng)
